@@ -5,7 +5,7 @@ From S2T Require Import C15.Model.
 
 (* pdf_extractor._patched_build_char_map, statement skeleton *)
 Definition skeleton : list instr :=
-  [Acquire; IfDepthZero [ReadG; Push Global; SetWrap]; Release; Incr; Yield; Acquire; Decr; IfDepthZero [PopRestoreAll Global]; Release].
+  [Acquire; IfDepthZero [ReadG; Push Global; SetWrap]; Incr; Release; Yield; Acquire; Decr; IfDepthZero [PopRestoreAll Global]; Release].
 
 Definition patch_targets : nat := 1.
 
@@ -16,8 +16,8 @@ Definition round_key_cache_max : nat := 4.
 (* pdf_extractor._ttf_get_glyph_features: _FONT_CACHE key = keyed *)
 Definition font_key_has_gids : bool := true.
 
-(* pdf_extractor._open_pdf_reader: AES fallback installation = eager *)
-Definition aes_patch_eager : bool := true.
+(* pdf_extractor._open_pdf_reader: AES fallback installation = OnEncrypted *)
+Definition aes_install_mode : aes_install := OnEncrypted.
 
 (* functools.lru_cache capacities *)
 Definition lru_caps : list nat := [256; 256; 256; 512].
